@@ -1,5 +1,5 @@
 CONSTANTS
-  Queries <- Q2
+  Queries <- Q3
   Filter <- F2
   Ids = {"1", "2"}
   Vals = {"1", "2"}
@@ -8,6 +8,7 @@ CONSTANTS
   RegisterFirst = FALSE
   BadInvalidates = TRUE
 SPECIFICATION Spec
-INVARIANTS Converged PerQuery
+CONSTRAINT Bounded
+INVARIANTS Converged PerQuery CurWhileHeld
 
 CHECK_DEADLOCK FALSE
